@@ -204,6 +204,10 @@ func isStringVal(v value) bool {
 
 // load copies the value of type T stored at addr.
 func load(T types.Type, addr *value) value {
+	return loadP(nil, T, addr)
+}
+
+func loadP(p *pathCtx, T types.Type, addr *value) value {
 	switch T := T.Underlying().(type) {
 	case *types.Struct:
 		v, ok := (*addr).(structure)
@@ -212,23 +216,30 @@ func load(T types.Type, addr *value) value {
 		}
 		a := make(structure, len(v))
 		for i := range a {
-			a[i] = load(T.Field(i).Type(), &v[i])
+			a[i] = loadP(p, T.Field(i).Type(), &v[i])
 		}
 		return a
 	case *types.Array:
 		v := (*addr).(array)
 		a := make(array, len(v))
 		for i := range a {
-			a[i] = load(T.Elem(), &v[i])
+			a[i] = loadP(p, T.Elem(), &v[i])
 		}
 		return a
 	default:
+		if p != nil {
+			p.raceAccess(addr, false)
+		}
 		return *addr
 	}
 }
 
 // store stores value v of type T into *addr.
 func store(T types.Type, addr *value, v value) {
+	storeP(nil, T, addr, v)
+}
+
+func storeP(p *pathCtx, T types.Type, addr *value, v value) {
 	switch T := T.Underlying().(type) {
 	case *types.Struct:
 		lhs, ok := (*addr).(structure)
@@ -238,15 +249,18 @@ func store(T types.Type, addr *value, v value) {
 			return
 		}
 		for i := range lhs {
-			store(T.Field(i).Type(), &lhs[i], rhs[i])
+			storeP(p, T.Field(i).Type(), &lhs[i], rhs[i])
 		}
 	case *types.Array:
 		lhs := (*addr).(array)
 		rhs := v.(array)
 		for i := range lhs {
-			store(T.Elem(), &lhs[i], rhs[i])
+			storeP(p, T.Elem(), &lhs[i], rhs[i])
 		}
 	default:
+		if p != nil {
+			p.raceAccess(addr, true)
+		}
 		*addr = v
 	}
 }
@@ -382,6 +396,7 @@ func (p *pathCtx) mapFind(m *amap, k value) *mapEntry {
 	if m == nil {
 		return nil
 	}
+	p.raceAccess(m, false)
 	// first pass: syntactically certain hit
 	for _, e := range m.entries {
 		if p.eqTerm(k, e.key).IsTrue() {
@@ -404,6 +419,7 @@ func (p *pathCtx) mapInsert(m *amap, k, v value) {
 	if m == nil {
 		panic(targetPanic{"assignment to entry in nil map"})
 	}
+	p.raceAccess(m, true)
 	if e := p.mapFind(m, k); e != nil {
 		e.val = v
 		return
@@ -415,6 +431,7 @@ func (p *pathCtx) mapDelete(m *amap, k value) {
 	if m == nil {
 		return
 	}
+	p.raceAccess(m, true)
 	e := p.mapFind(m, k)
 	if e == nil {
 		return
@@ -449,6 +466,7 @@ func (p *pathCtx) mapRange(m *amap) iter {
 	if m == nil {
 		return &amapIter{}
 	}
+	p.raceAccess(m, false)
 	order := append([]*mapEntry{}, m.entries...)
 	if p.ex.cfg.SymMapOrder && len(order) > 1 {
 		// Go leaves iteration order unspecified: make it a decision.
